@@ -393,6 +393,9 @@ func (c *stepCtx) stepDecode(k int, st map[string]interface{}) string {
 			return fmt.Sprintf(`"ev":"Skipped","ty":%q,"why":"no input from step %d"`, ty, num(st, "from", -1))
 		}
 		in = append([]byte{}, src...)
+		if cut := num(st, "cut", 0); cut > 0 && cut < len(in) {
+			in = in[:len(in)-cut] // the message arrives truncated
+		}
 	}
 	if boolean(st, "guard") {
 		in = guardedCopy(in) // ends at an inaccessible page
